@@ -520,7 +520,9 @@ impl<C: ContentAddrStore> SealedState<C> {
             .keys()
             .map(|k| self.0.stakes.votes(my_epoch, *k))
             .sum();
-        if total_votes > present_votes / 2 * 3 {
+        // confirmed only when the signers hold strictly more than 2/3 of the active voting power:
+        // present > floor(2 * total / 3), computed without overflow
+        if present_votes > total_votes / 3 * 2 + (total_votes % 3) * 2 / 3 {
             Some(ConfirmedState {
                 state: self.clone(),
                 cproof,
